@@ -175,7 +175,6 @@ def run(ctx):
     cases.sort(key=lambda c: json.dumps(c, sort_keys=True))
     ctx.sample(cases[len(cases) // 3], limit=1)
     ctx.exhaustive = True
-    import time as _t, sys as _s; _s.stderr.write("TIMER 0 %.1f %.1f\n" % (_t.time(), _t.process_time()))  # TMPTIMER
     # ---- every case through the real codec ----
     ncodec = 0
     for c in cases:
@@ -203,7 +202,6 @@ def run(ctx):
                 ctx.violation(sig + ":raises", "encode/decode of evaluator rows %r raised %s: %s" % (rows, type(e).__name__, str(e)[:120]), dict(rows=c["rows"], order=order)); break
             if len(got) != len(exp) or not all(same(g, e) for g, e in zip(got, exp)):
                 ctx.violation(sig + ":differs", "rows %r read back as %r, expected %r" % (rows, got, exp), dict(rows=c["rows"], expected=c["expected"], order=order)); break
-    import time as _t, sys as _s; _s.stderr.write("TIMER 1 %.1f %.1f\n" % (_t.time(), _t.process_time()))  # TMPTIMER
     # ---- two triples in one log: what one triple's rows look like must not leak into the other's (columns only one of them
     #      has are Missing in the other; list/tuple conversion and packing are decided per triple) ----
     for i in range(0, len(cases) - 1, ctx.pick(2, 1)):
@@ -226,14 +224,13 @@ def run(ctx):
             if len(got[t]) != len(want[t]) or not all(same(g, e) for g, e in zip(got[t], want[t])):
                 ctx.violation("codec:two-triples:differs", "two triples in one log: rows of triple %d read back as %r, expected %r (the other triple's rows: %r); %s" % (t, got[t], want[t], rows_b if t == 0 else rows_a, where_differs(got[t], want[t])),
                               dict(rows_a=ca["rows"], rows_b=cb["rows"], triple=t)); break
-    import time as _t, sys as _s; _s.stderr.write("TIMER 2 %.1f %.1f\n" % (_t.time(), _t.process_time()))  # TMPTIMER
     # ---- 3-5 triples in one log, made and released one after the other (what an Experiment does: the rows of a triple and
     #      the objects in them exist from its evaluation until it is written): every triple reads back as ITS rows.  Groups are
     #      drawn from the cases with reward objects (the values whose logged form is asked of the object) and from all cases ----
     rcases = [c for c in cases if '"rwd"' in json.dumps(c["rows"])]
     if not rcases: raise RuntimeError("no case with a reward object")
     groups = []
-    for i in range(0, len(rcases), ctx.pick(5, 2)):
+    for i in range(0, len(rcases), ctx.pick(8, 2)):
         n = 3 + i % 3
         groups.append([rcases[(i + j * (7 + 2 * n)) % len(rcases)] if j != 1 or i % 4 else cases[(i * 11 + 5) % len(cases)] for j in range(n)])
     for group in groups:
@@ -251,7 +248,6 @@ def run(ctx):
             if len(got[t]) != len(want[t]) or not all(same(g, e) for g, e in zip(got[t], want[t])):
                 ctx.violation("codec:many-triples:differs", "%d triples in one log: rows of triple %d read back as %r, expected %r; %s" % (len(group), t, got[t], want[t], where_differs(got[t], want[t])),
                               dict(rows=[c["rows"] for c in group], triple=t)); break
-    import time as _t, sys as _s; _s.stderr.write("TIMER 3 %.1f %.1f\n" % (_t.time(), _t.process_time()))  # TMPTIMER
     # ---- the same through whole experiments (one environment, 3-5 learners, an evaluator that makes learner k's rows when
     #      it is called for learner k), five ways ----
     d = os.path.join(ctx.scratch, "expm"); os.makedirs(d, exist_ok=True)
@@ -282,7 +278,6 @@ def run(ctx):
                 ctx.violation("experiment:many-triples:rows:" + name.split(":")[-1], "[%s] %d learners: interactions of learner %d are %r, expected %r; %s" % (name, len(group), t, got[t], want[t], where_differs(got[t], want[t])),
                               dict(rows=[c["rows"] for c in group], how=name, triple=t)); break
     ctx.extra["many_triple_logs"] = len(groups); ctx.extra["many_triple_experiments_run"] = len(msample) * 7
-    import time as _t, sys as _s; _s.stderr.write("TIMER 4 %.1f %.1f\n" % (_t.time(), _t.process_time()))  # TMPTIMER
     # ---- a sample through whole experiments, five ways ----
     d = os.path.join(ctx.scratch, "exp"); os.makedirs(d, exist_ok=True)
     sample = rng.sample(cases, min(len(cases), ctx.pick(120, 1500)))
@@ -319,7 +314,6 @@ def run(ctx):
                 if len(pr) != 1 or not same({k: v for k, v in pr[0].items()}, want): bad = "[%s] %s table %r, expected %r" % (name, idc, pr, want)
             if bad:
                 ctx.violation("experiment:params:" + name.split(":")[-1], bad, dict(rows=c["rows"], how=name)); break
-    import time as _t, sys as _s; _s.stderr.write("TIMER 5 %.1f %.1f\n" % (_t.time(), _t.process_time()))  # TMPTIMER
     ctx.extra["experiments_run"] = len(sample) * 7; ctx.traces += len(cases) + len(sample) + len(groups) + len(msample)
     ctx.assumptions += ["numpy / torch values (the ndim branch) are not installed here", "floats whose 6th decimal is exactly 5 (rounding ties in binary) are not generated",
                         "reward objects are built from ints, lists and floats with <= 5 decimals (their state is the object's own and is compared as it is)"]
